@@ -6,9 +6,29 @@ use super::*;
 use crate::gen::{simple_model, Pattern};
 use crate::rt::{self, run_dna, run_enum};
 
+/// the same bytes through different, equally legitimate ways of calling the reader
+fn read_variant(bytes: &[u8], variant: usize) -> rt::Out<peppi::game::immutable::Game> {
+	use std::io::{BufReader, Cursor};
+	match variant % 5 {
+		0 => rt::slp_read_default(bytes),
+		1 => rt::slp_read(bytes, false, false),
+		2 => rt::guard(|| peppi::io::slippi::read(BufReader::with_capacity(37, Cursor::new(bytes)), None)),
+		3 => {
+			let mut r = crate::readers::SchedReader::new(bytes, crate::readers::Schedule::Fixed(3));
+			rt::guard(|| peppi::io::slippi::read(&mut r, None))
+		}
+		_ => rt::guard(|| peppi::io::slippi::read(BufReader::new(Cursor::new(bytes.to_vec())), Some(&rt::slp_opts(false, true)))),
+	}
+}
+
 pub fn roundtrip(m: &ModelGame) -> Result<(), Fail> {
 	let bytes = m.encode();
-	let g = rt::slp_read_default(&bytes).expect_ok("slippi::read").map_err(|f| f.with_file("slp", &bytes))?;
+	let variant = bytes.len() + m.frames.len();
+	let g = read_variant(&bytes, variant).expect_ok("slippi::read").map_err(|f| {
+		let mut f = f.with_file("slp", &bytes);
+		f.msg = format!("{} (reader variant {})", f.msg, variant % 5);
+		f
+	})?;
 	let w = rt::slp_write(&g).expect_ok("slippi::write").map_err(|f| f.with_file("slp", &bytes))?;
 	if w != bytes {
 		let d = describe_diff(&bytes, &w, m);
@@ -17,6 +37,14 @@ pub fn roundtrip(m: &ModelGame) -> Result<(), Fail> {
 			.with_file("slp", &bytes)
 			.with_file("written.slp", &w)
 			.with_detail(m.summary()));
+	}
+	// second generation: what was written reads back and writes to the same bytes again
+	if variant % 3 == 0 {
+		let g2 = rt::slp_read_default(&w).expect_ok("slippi::read(written)").map_err(|f| f.with_file("slp", &bytes))?;
+		let w2 = rt::slp_write(&g2).expect_ok("slippi::write(2nd generation)").map_err(|f| f.with_file("slp", &bytes))?;
+		if w2 != bytes {
+			return Err(Fail::new("op=roundtrip diff=second_generation", describe_diff(&bytes, &w2, m)).with_file("slp", &bytes).with_detail(m.summary()));
+		}
 	}
 	Ok(())
 }
